@@ -38,12 +38,28 @@ thread_local! {
     static PUPPET: RefCell<Option<(Arc<Inner>, usize)>> = const { RefCell::new(None) };
 }
 
+/// When set, puppet threads park only at points whose name starts with one of these prefixes (all other points are
+/// recorded and passed through). Used by the database-level schedules, where most hook points are irrelevant.
+static PARK_ONLY: Mutex<Option<Vec<String>>> = Mutex::new(None);
+pub fn set_park_only(prefixes: Option<Vec<String>>) {
+    *PARK_ONLY.lock().unwrap() = prefixes;
+}
+
 fn handler(name: &'static str, args: &[i64]) {
     let me = PUPPET.with(|p| p.borrow().clone());
     let Some((inner, t)) = me else { return };
+    let pass = {
+        let f = PARK_ONLY.lock().unwrap();
+        match f.as_ref() {
+            Some(pre) => !pre.iter().any(|p| name.starts_with(p.as_str())),
+            None => false,
+        }
+    };
     let mut g = inner.m.lock().unwrap();
-    g.events.push((t, name.to_string(), args.to_vec()));
-    if g.free_run {
+    if !pass || name.starts_with("wal.") {
+        g.events.push((t, name.to_string(), args.to_vec()));
+    }
+    if g.free_run || pass {
         return;
     }
     g.status[t] = Status::AtPoint;
